@@ -192,6 +192,33 @@ def main_more():
         net.switch.at[0, "closed"] = False
     _compare("runpp, then a line switch is opened, then run_timeseries", ring, earlier_pf_then_open, "load", "p_mw", 0, [1., 2., 3.],
              [("res_bus", "vm_pu"), ("res_line", "loading_percent")], fails)
+    # a second time series on the same net and output writer records the requested variables again
+    import contextlib
+    import io
+    net = pn.simple_four_bus_system()
+    values = [0.01, 0.02, 0.04]
+    ct.ConstControl(net, "load", "p_mw", element_index=[0], profile_name=["v"], data_source=DFData(pd.DataFrame({"v": values})))
+    logs = [("res_bus", "vm_pu"), ("res_line", "loading_percent")]
+    ow = OutputWriter(net, output_path=None, log_variables=list(logs))
+    for run in (1, 2):
+        try:
+            with contextlib.redirect_stderr(io.StringIO()), contextlib.redirect_stdout(io.StringIO()):
+                run_timeseries(net, time_steps=range(3), verbose=False)
+        except Exception as e:
+            fails.append(f"time series run {run} on the same net raised {type(e).__name__}: {str(e)[:100]}")
+            break
+        ref = pn.simple_four_bus_system()
+        for k, v in enumerate(values):
+            ref.load.at[0, "p_mw"] = v
+            pp.runpp(ref)
+            for tab, col in logs:
+                key = f"{tab}.{col}"
+                if key not in ow.output:
+                    fails.append(f"time series run {run} on the same net and output writer: requested variable {key} was not recorded")
+                elif not np.allclose(ow.output[key].loc[k].values.astype(float), ref[tab][col].values, rtol=1e-7, atol=1e-7):
+                    fails.append(f"time series run {run} on the same net: {key} at step {k} differs from a fresh power flow")
+        if fails:
+            break
     for f in fails:
         print("REPRODUCED:", f)
     if not fails:
